@@ -49,6 +49,23 @@ type RaftGroup struct {
 	log           *log.Entry
 }
 
+// hasDurableState tells whether the log store already belongs to a running
+// group member: such a node must be restarted from its log, never bootstrapped
+// again (StartNode would append the bootstrap membership entries to the
+// existing log).
+func hasDurableState(storage wal.WAL) bool {
+	if hardState, _, err := storage.InitialState(); err == nil && !etcdRaft.IsEmptyHardState(hardState) {
+		return true
+	}
+	if lastIndex, err := storage.LastIndex(); err == nil && lastIndex > 0 {
+		return true
+	}
+	if snapshot, err := storage.Snapshot(); err == nil && !etcdRaft.IsEmptySnap(snapshot) {
+		return true
+	}
+	return false
+}
+
 func startRaftNode(id uint64, nodeIds []uint64, storage wal.WAL, logger *log.Entry) (etcdRaft.Node, error) {
 	raftConfig := &etcdRaft.Config{
 		ID:              id,
@@ -60,7 +77,7 @@ func startRaftNode(id uint64, nodeIds []uint64, storage wal.WAL, logger *log.Ent
 		Logger:          logger,
 	}
 
-	if len(nodeIds) > 0 {
+	if len(nodeIds) > 0 && !hasDurableState(storage) {
 		var peers []etcdRaft.Peer
 		for _, nodeId := range nodeIds {
 			peers = append(peers, etcdRaft.Peer{ID: nodeId})
